@@ -227,7 +227,7 @@ def run (ctx):
       # D5 family
       t = kwarg(c, 'type', 0); cd = kwarg(c, 'code', 1)
       _family(ctx, repo, swmod, f, c, t, cd, spec)
-  ctx.floor('send_error sites', n_err, 10)
+  ctx.floor('send_error sites', n_err, 6)
   # send_error itself: xid from ofp, one send
   se = q.find_method(repo, sw, 'send_error', 'C13')
   ctx.analysed(se)
